@@ -15,7 +15,13 @@ other than the root (multi-linked ports, order links, unlinked counted ports inc
 link (order links included).  Every history is also run on the store model (coq/model/Graph.v through
 coq/model/HugrHist.v): kind "hist" = Hugr(root_op) followed by a history (case CHist), kind "hugr" with
 mutations = the history applied to the builder program's HUGR, whose store state is rebuilt from the
-public queries (case CMut).  corr demands that the model's view after the history is exactly the dump."""
+public queries (case CMut).  corr demands that the model's view after the history is exactly the dump.
+
+Seeded round 2: histories also add a link that exists AGAIN (every kind; order links through the raw add_link on offset
+-1), serialize the HUGR in the middle (step "ser"; no call for the store model) and change the operation of an existing
+node in place through public attributes (step "edit_op"; such a case is judged as a HUGR, CHugr); a quarter of the builder
+programs are built with a serialization attempted after every statement (_Probing).  The dumps take the encoded operation
+from the operation object, not through NodeData (function dump below)."""
 from __future__ import annotations
 
 import copy
